@@ -48,8 +48,12 @@ Written(s) == s.size >= 0
 \* calls as functions on the state; R(s, ret) pairs the new state with the returned value
 R(s, ret) == [s |-> s, ret |-> ret]
 
+\* net/http (and httptest) refuse a code outside 100..999 by panicking in WriteHeader: nothing is forwarded, so
+\* nothing is recorded either (F21: the recorder noted status and "written" before forwarding)
+Refused(c) == c < 100 \/ c > 999
 DoWriteHeader(s, c) ==
   IF s.hij \/ s.size >= 0 THEN R(s, "ignored")
+  ELSE IF Refused(c) THEN R(s, "refused")
   ELSE IF Informational(c) THEN R([s EXCEPT !.hdrs = Append(@, c)], "ok")
   ELSE R([s EXCEPT !.hdrs = Append(@, c), !.status = c, !.size = 0], "ok")
 
